@@ -2059,7 +2059,23 @@ class ClearDivisions(Elemwise):
         return (None,) * (self.frame.npartitions + 1)
 
 
-class SetDivisions(Elemwise):
+class PinnedPartitioning:
+    """Mixin for expressions with operands that describe the current partitions
+    of the frame one by one (divisions, per-partition statistics)
+
+    "tune" rewrites (IO fusion, split_out adjustment) change the number of
+    partitions and must not be applied below such an expression.
+    """
+
+    _pins_partitioning = True
+
+    def rewrite(self, kind: str, rewritten: dict | None = None):
+        if kind == "tune" and self._pins_partitioning:
+            return self
+        return super().rewrite(kind, rewritten)
+
+
+class SetDivisions(PinnedPartitioning, Elemwise):
     _parameters = ["frame", "divisions"]
     operation = staticmethod(_return_input)
 
@@ -2067,7 +2083,7 @@ class SetDivisions(Elemwise):
         return self.operand("divisions")
 
 
-class ResolveOverlappingDivisions(Expr):
+class ResolveOverlappingDivisions(PinnedPartitioning, Expr):
     _parameters = ["frame", "mins", "maxes", "lens"]
 
     @functools.cached_property
